@@ -41,6 +41,19 @@ package limits
 //@   loop 1 invariant 0 <= #i && #i <= len(l.BodyLimits) && r.Body == old(r.Body) && r.URL == old(r.URL) && r.URL.Path == old(r.URL.Path) && calledNext == old(calledNext)
 //@   loop 1 invariant forall(k, 0, #i, !hit(k))
 
+//@ unit limit_table frames=on props=C17 filter=`limits\.addPathLimit$`
+//@ // The limit table the handler matches against holds each scope AS WRITTEN (only a missing leading slash is added):
+//@ // Path.Matches gives a trailing slash a meaning, so "/upload/" and "/upload" are different scopes. A scope already in
+//@ // the table gets the new limit in place; otherwise one entry is appended and every other entry is kept.
+//@ func addPathLimit
+//@   modifies E:github.com/tmpim/casket/caskethttp/httpserver.PathLimit
+//@   ensures [leading_slash_kept_as_written] (len(path) > 0 && path[0] == '/') ==> exists(k, 0, len(result), result[k].Path == path && result[k].Limit == limit)
+//@   ensures [leading_slash_added_only] (len(path) == 0 || path[0] != '/') ==> exists(k, 0, len(result), result[k].Path == "/" + path && result[k].Limit == limit)
+//@   ensures [at_most_one_new_entry] len(result) == len(pathLimit) || len(result) == len(pathLimit) + 1
+//@   ensures [other_scopes_kept] forall(k, 0, len(pathLimit), result[k].Path == old(pathLimit[k].Path))
+//@   loop 1 invariant 0 <= #i && #i <= len(pathLimit)
+//@   loop 1 invariant forall(k, 0, len(pathLimit), pathLimit[k].Path == old(pathLimit[k].Path))
+
 //@ unit setup_sweep props=C11 files=setup.go nilchecks=on nonnil_params=on dispenser_variants=on filter=`.`
 //@ // Safety sweep of this directive's setup code: index, slice, division, nil-map store, nil dereference, explicit panic,
 //@ // and termination of the loops driven by the token cursor. No functional contract; callees in the dispenser through their contracts.
